@@ -204,7 +204,7 @@ public:
     constexpr auto operator[](index_constant<I> index) & -> auto&
     {
         static_assert(I < sizeof...(Ts));
-        TETL_PRECONDITION(I == index());
+        TETL_PRECONDITION(I == this->index());
         return _union[index];
     }
 
@@ -214,7 +214,7 @@ public:
     constexpr auto operator[](index_constant<I> index) const& -> auto const&
     {
         static_assert(I < sizeof...(Ts));
-        TETL_PRECONDITION(I == index());
+        TETL_PRECONDITION(I == this->index());
         return _union[index];
     }
 
@@ -224,7 +224,7 @@ public:
     constexpr auto operator[](index_constant<I> index) && -> auto&&
     {
         static_assert(I < sizeof...(Ts));
-        TETL_PRECONDITION(I == index());
+        TETL_PRECONDITION(I == this->index());
         return etl::move(_union)[index];
     }
 
@@ -234,7 +234,7 @@ public:
     constexpr auto operator[](index_constant<I> index) const&& -> auto const&&
     {
         static_assert(I < sizeof...(Ts));
-        TETL_PRECONDITION(I == index());
+        TETL_PRECONDITION(I == this->index());
         return etl::move(_union)[index];
     }
 
